@@ -474,3 +474,39 @@ contract("src/junction_comparator.py:JunctionComparator.are_suspicious_introns",
                 1: {"inv": ["all(read_junctions[c][1] - read_junctions[c][0] + 1 <= self.params.max_suspicious_intron_abs_len "
                             "for c in range(read_cregion[0], read_cregion[1] + 1))"]}},
          gen=_gen_susp, canary="not result")
+
+
+# ---- the whole of classify_assignment: the events of EVERY selected isoform count -------------------------------------------------------------------
+@finite("C01.classify_all_isoforms", ["C01"], note="the real LongReadAssigner.classify_assignment (the extracted contract covers its decision chain only) on one "
+        "or two selected isoforms whose event lists are drawn from 7 representative event types (consistent, minor, major intronic, major "
+        "non-intronic): a major contradiction with ANY selected isoform makes the type an inconsistent one, and the type equals that of the same "
+        "call with every isoform carrying all the events")
+def c01_classify_all(tier, rng):
+    import itertools
+    la = native.repo_import("src/long_read_assigner.py")
+    ia = native.repo_import("src/isoform_assignment.py")
+    M, T = ia.MatchEventSubtype, ia.ReadAssignmentType
+    pool = [M.fsm, M.ism_left, M.intron_shift, M.exon_elongation_left, M.alt_left_site_novel, M.alt_right_site_novel, M.alternative_polya_site_right]
+    pool = [e for e in pool if e is not None]
+    a = la.LongReadAssigner.__new__(la.LongReadAssigner)
+    subsets = [c for k in (1, 2) for c in itertools.combinations(pool, k)]
+    obl = dis = 0
+    viol = []
+    for n in (1, 2):
+        for events in itertools.product(subsets, repeat=n):
+            obl += 1
+            best = ["T%d" % i for i in range(n)]
+            matches = {t: [ia.MatchEvent(e) for e in ev] for t, ev in zip(best, events)}
+            union = sorted({e for ev in events for e in ev}, key=lambda e: e.value)
+            got = a.classify_assignment(list(best), matches)
+            same = a.classify_assignment(list(best), {t: [ia.MatchEvent(e) for e in union] for t in best})
+            major = any(M.is_major_inconsistency(e) for e in union)
+            ok = got == same and (not major or got in (T.inconsistent, T.inconsistent_non_intronic, T.inconsistent_ambiguous))
+            if ok:
+                dis += 1
+            elif len(viol) < 3:
+                viol.append({"obligation": "C01.classify_all_isoforms.%s" % "__".join("_".join(e.name for e in ev) for ev in events),
+                             "inputs": {"events_per_isoform": [[e.name for e in ev] for ev in events]}, "observed": got.name,
+                             "required": "%s (the type when every isoform carries all events)%s" % (same.name, "; an inconsistent type" if major else "")})
+    return {"obligations": obl, "discharged": dis, "violations": viol, "cases": obl, "exhaustive": True,
+            "bound": "1-2 isoforms x subsets of <= 2 of 7 event types", "samples": [{"events_per_isoform": [["alt_left_site_novel"], ["alt_right_site_novel"]]}]}
